@@ -14,7 +14,7 @@ t=$(cd "$wt" && PYTHONPATH="$wt" timeout 600 /venv/bin/python -m pytest -q -p no
 ( cd "$wt" && PYTHONPATH="$wt" timeout 300 /venv/bin/python "$demo" >/dev/null 2>&1 ); d1=$?
 res=""
 for p in "$@"; do
-  out=$(cd /verif && VERIF_REPO="$wt" timeout 1200 ./check "$p" --tier quick --no-shrink 2>&1); rc=$?
+  out=$(cd "${VERIF_DIR:-/verif}" && VERIF_REPO="$wt" timeout 1200 ./check "$p" --tier quick --no-shrink 2>&1); rc=$?
   sig=$(echo "$out" | grep -m2 "signature:" | tr '\n' ' ')
   res="$res $p:rc=$rc"
   [ -n "$VERBOSE" ] && echo "$out" | tail -8
